@@ -1,6 +1,7 @@
 package main
 
 import (
+	"fmt"
 	"go/ast"
 	"go/token"
 	"go/types"
@@ -614,6 +615,159 @@ func init() {
 				}
 				return true
 			})
+			return obs
+		}})
+}
+
+// MAP.key-types-agree — C11 ("sorted maps identify a key by its name whether
+// given as string or symbol"): the language has one sorted-map type and two
+// implementations behind it — the kernel's own and the one JSON decoding
+// produces.  Programs cannot tell which one they hold, so Get, Set and Del of
+// every implementation must accept the same key types.
+func init() {
+	register(&Rule{ID: "MAP.key-types-agree", Floor: 6,
+		Doc: "every implementation of the lisp.Map interface in the module accepts, in each of Get, Set and Del, exactly the key types the kernel's own sorted map accepts there (today: string and symbol) — read from the type tests on the key parameter: a map decoded from JSON answers get, key?, assoc! and dissoc! for a symbol key as a map built with sorted-map does",
+		Run: func(c *Ctx) []Obligation {
+			const rid = "MAP.key-types-agree"
+			lp := c.Pkg("lisp")
+			if lp == nil {
+				return []Obligation{anchorMissing(rid, "package lisp")}
+			}
+			mapIface, _ := lp.Types.Scope().Lookup("Map").Type().Underlying().(*types.Interface)
+			if mapIface == nil {
+				return []Obligation{anchorMissing(rid, "lisp.Map")}
+			}
+			// accepted key types of a method: constants compared with <key>.Type that do not lead to an error return
+			accepted := func(u FuncUnit) (map[string]bool, bool) {
+				info := u.Pkg.TypesInfo
+				if u.Decl.Type.Params == nil || len(u.Decl.Type.Params.List) == 0 || len(u.Decl.Type.Params.List[0].Names) == 0 {
+					return nil, false
+				}
+				key := info.Defs[u.Decl.Type.Params.List[0].Names[0]]
+				isKeyType := func(e ast.Expr) bool {
+					se, ok := ast.Unparen(e).(*ast.SelectorExpr)
+					return ok && se.Sel.Name == "Type" && identObj(info, se.X) == key
+				}
+				out := map[string]bool{}
+				found := false
+				ast.Inspect(u.Decl.Body, func(n ast.Node) bool {
+					switch x := n.(type) {
+					case *ast.SwitchStmt:
+						if x.Tag == nil || !isKeyType(x.Tag) {
+							return true
+						}
+						for _, st := range x.Body.List {
+							cc := st.(*ast.CaseClause)
+							if cc.List == nil {
+								continue
+							}
+							for _, e := range cc.List {
+								if k, ok := identObjOrSel(info, e).(*types.Const); ok {
+									out[k.Name()] = true
+									found = true
+								}
+							}
+						}
+					case *ast.IfStmt:
+						// if k.Type != A && k.Type != B { return error }
+						var ks []string
+						all := true
+						for _, a := range impliedAtoms(x.Cond, true) {
+							be, ok := ast.Unparen(a.E).(*ast.BinaryExpr)
+							if !ok || !a.Positive || be.Op != token.NEQ {
+								all = false
+								continue
+							}
+							for _, pair := range [][2]ast.Expr{{be.X, be.Y}, {be.Y, be.X}} {
+								if isKeyType(pair[0]) {
+									if k, ok := identObjOrSel(info, pair[1]).(*types.Const); ok {
+										ks = append(ks, k.Name())
+									}
+								}
+							}
+						}
+						if all && len(ks) > 0 {
+							for _, k := range ks {
+								out[k] = true
+							}
+							found = true
+						}
+					}
+					return true
+				})
+				return out, found
+			}
+			type impl struct {
+				name    string
+				methods map[string]FuncUnit
+			}
+			impls := map[string]*impl{}
+			for _, u := range c.Funcs(func(p string) bool { return true }) {
+				if u.Decl == nil || u.Decl.Recv == nil || u.Decl.Body == nil {
+					continue
+				}
+				switch u.Obj.Name() {
+				case "Get", "Set", "Del":
+				default:
+					continue
+				}
+				sig := u.Obj.Type().(*types.Signature)
+				rt := sig.Recv().Type()
+				if !types.Implements(rt, mapIface) && !types.Implements(types.NewPointer(rt), mapIface) {
+					continue
+				}
+				tn := rt.String()
+				if impls[tn] == nil {
+					impls[tn] = &impl{name: tn, methods: map[string]FuncUnit{}}
+				}
+				impls[tn].methods[u.Obj.Name()] = u
+			}
+			var ref *impl
+			for tn, im := range impls {
+				if strings.HasSuffix(tn, "lisp.sortedmap") {
+					ref = im
+				}
+			}
+			if ref == nil {
+				return []Obligation{anchorMissing(rid, "lisp.sortedmap (the reference implementation of lisp.Map)")}
+			}
+			var obs []Obligation
+			for _, tn := range sortedKeys(impls) {
+				im := impls[tn]
+				for _, mn := range []string{"Get", "Set", "Del"} {
+					u, ok := im.methods[mn]
+					ru, rok := ref.methods[mn]
+					if !ok || !rok {
+						continue
+					}
+					want, wok := accepted(ru)
+					got, gok := accepted(u)
+					construct := mn + " key types"
+					switch {
+					case !wok || !gok:
+						obs = append(obs, mkOb(c, rid, u, construct, u.Decl, Undecided, "the key-type test of this method (or of the reference) was not recognised", true))
+					default:
+						var missing, extra []string
+						for k := range want {
+							if !got[k] {
+								missing = append(missing, k)
+							}
+						}
+						for k := range got {
+							if !want[k] {
+								extra = append(extra, k)
+							}
+						}
+						sort.Strings(missing)
+						sort.Strings(extra)
+						if len(missing)+len(extra) == 0 {
+							obs = append(obs, mkOb(c, rid, u, construct, u.Decl, Proved, "accepts "+strings.Join(sortedKeys(got), ", ")+", as the kernel's sorted map does", im != ref))
+						} else {
+							obs = append(obs, mkOb(c, rid, u, construct, u.Decl, Violated, fmt.Sprintf("this implementation of lisp.Map accepts %v where the kernel's sorted map accepts %v: a map decoded from JSON refuses (get m 'k), (key? m 'k), (assoc! m 'k v) while the same calls work on a map built with sorted-map, and non-mutating assoc/dissoc (which rebuild through the kernel map) accept the symbol", sortedKeys(got), sortedKeys(want)), true))
+						}
+					}
+				}
+			}
 			return obs
 		}})
 }
